@@ -987,7 +987,9 @@ type leafClass struct {
 	corners  map[int]bool
 	attrs    map[string]bool
 	axes     map[int]bool
-	normed   bool
+	normed   bool   // a length-normalising operation (v/|v|) is on the path
+	normHow  string // which one
+	normUnk  string // an operation on the path that cannot be classified as normalising or not
 	swizzled bool
 	normCall ssa.Value
 	normCtx  *sx.Ctx
@@ -1011,7 +1013,7 @@ func classifyGather(a *anchors, e *sx.Env, m *ssa.Parameter, root ssa.Value, idx
 			}
 		}
 		if sx.VecMethod(ssaCallee(c), "Normalized") {
-			lc.normed = true
+			lc.normed, lc.normHow = true, "vector3.Normalized"
 			lc.normCall = c
 			for _, vis := range sl.Visits {
 				if vis.Kind == sx.VValue && vis.V == ssa.Value(c) {
@@ -1030,6 +1032,7 @@ func classifyGather(a *anchors, e *sx.Env, m *ssa.Parameter, root ssa.Value, idx
 			}
 		}
 	}
+	a.classifyNormalisation(sl, &lc)
 	carry := 0
 	for _, mr := range sl.MemReads() {
 		r2, off := e.SliceRoot(mr.Base)
@@ -1209,6 +1212,7 @@ func gather(a *anchors, r *rep, fn, write *ssa.Function) {
 	}
 	built := map[string]bool{}
 	normBuilt, normNormalised := false, true
+	normUnknown, normHow := "", ""
 	var normPos string
 	var normCall ssa.Value
 	var normCtx *sx.Ctx
@@ -1288,6 +1292,11 @@ func gather(a *anchors, r *rep, fn, write *ssa.Function) {
 						normPos = p
 						if !lc.normed {
 							normNormalised = false
+							if lc.normUnk != "" && normUnknown == "" {
+								normUnknown = lc.normUnk
+							}
+						} else if normHow == "" {
+							normHow = lc.normHow
 						}
 						if lc.normCall != nil {
 							normCall, normCtx = lc.normCall, lc.normCtx
@@ -1316,10 +1325,12 @@ func gather(a *anchors, r *rep, fn, write *ssa.Function) {
 	switch {
 	case !normBuilt:
 		r.Violate("NRM-1", key, a.p.Pos(fn.Pos()), "no store computes Triangle.Normal from the corner normals (attribute "+a.nrmAttr+")")
+	case !normNormalised && normUnknown != "":
+		r.Undecide("NRM-1", key, normPos, "no length-normalising operation recognised on the path of the facet normal, and it passes through "+normUnknown+", which the rule cannot classify")
 	case !normNormalised:
-		r.Undecide("NRM-1", key, normPos, "the mean of the corner normals does not pass through vector3.Normalized; normalisation by other means is not recognised")
+		r.Violate("NRM-1", key, normPos, "the mean of the corner normals reaches Triangle.Normal without any length-normalising operation (no Normalized, no division by Length()/sqrt of a sum of squares): the facet normal is the plain mean, not the normalised mean")
 	default:
-		r.Hold("NRM-1", key, normPos, "Normal = Normalized(f(P1,P2,P3 of attribute "+a.nrmAttr+")) of the same triangle")
+		r.Hold("NRM-1", key, normPos, "Normal = normalised f(P1,P2,P3 of attribute "+a.nrmAttr+") of the same triangle (through "+normHow+")")
 		if normCall != nil {
 			meanDirection(a, r, e, name+"#facet-normal.direction", normPos, normCall, normCtx)
 		}
@@ -1384,4 +1395,97 @@ func (a *anchors) valueChanging(sl *sx.Slicer) string {
 		}
 	}
 	return ""
+}
+
+// classifyNormalisation decides whether a length-normalising operation (result
+// v/|v|) lies on the data path: vector Normalized, or a division / scaling by a
+// non-constant that is computed through Length() / math.Sqrt. Every other
+// operation must be classifiable as not normalising (the vector package has no
+// other v/|v| method; constant scalings, sums, conversions, component accessors,
+// constructors, the gather accessors and package-local helpers are not); an
+// operation that cannot be classified is remembered in normUnk.
+func (a *anchors) classifyNormalisation(sl *sx.Slicer, lc *leafClass) {
+	hasRoot := func(v ssa.Value, ctx *sx.Ctx) bool {
+		s2 := sl.Fresh()
+		s2.From(v, nil, ctx)
+		for _, c := range s2.Calls() {
+			o := ssaCallee(c)
+			if o == nil {
+				continue
+			}
+			if o.Pkg() != nil && o.Pkg().Path() == "math" && (o.Name() == "Sqrt" || o.Name() == "Hypot") {
+				return true
+			}
+			if sx.VecMethod(o, "Length") {
+				return true
+			}
+		}
+		return false
+	}
+	isConst := func(v ssa.Value) bool {
+		for {
+			if cv, ok := v.(*ssa.Convert); ok {
+				v = cv.X
+				continue
+			}
+			break
+		}
+		_, ok := v.(*ssa.Const)
+		return ok
+	}
+	for _, vis := range sl.Visits {
+		if vis.Kind != sx.VValue {
+			continue
+		}
+		switch x := vis.V.(type) {
+		case *ssa.BinOp:
+			if b, ok := x.Type().Underlying().(*types.Basic); ok && b.Info()&types.IsFloat != 0 && x.Op.String() == "/" && !isConst(x.Y) {
+				if hasRoot(x.Y, vis.Ctx) {
+					lc.normed, lc.normHow = true, "division by a length (sqrt)"
+				} else if lc.normUnk == "" {
+					lc.normUnk = "a division by a non-constant that is not a length"
+				}
+			}
+		case *ssa.Call:
+			o := ssaCallee(x)
+			callee := x.Call.StaticCallee()
+			switch {
+			case o == nil:
+				if callee != nil && a.inline(callee) {
+					continue
+				}
+				if lc.normUnk == "" {
+					lc.normUnk = "a dynamic call"
+				}
+			case sx.VecMethod(o, "Normalized"):
+				lc.normed, lc.normHow = true, "vector3.Normalized"
+			case sx.VecMethod(o, "Scale") || sx.VecMethod(o, "DivByConstant") || sx.VecMethod(o, "MultByConstant"):
+				if len(x.Call.Args) == 2 && !isConst(x.Call.Args[1]) {
+					if hasRoot(x.Call.Args[1], vis.Ctx) {
+						lc.normed, lc.normHow = true, o.Name()+" by a length"
+					} else if lc.normUnk == "" {
+						lc.normUnk = o.Name() + " by a non-constant that is not a length"
+					}
+				}
+			case isVectorPkgObj(o):
+				// every other method / function of the vector packages: not normalising
+			case a.cornerOrdinal(x) > 0 || a.isMeshMethod(x, "Tri") || a.isMeshMethod(x, "PrimitiveCount") || a.isMeshMethod(x, "HasFloat3Attribute"):
+			case callee != nil && a.inline(callee):
+				// package-local helper: its body is on the slice
+			case o.Pkg() != nil && o.Pkg().Path() == "math":
+				// scalar math on a component: Sqrt is handled through the divisions above; anything else is not a normalisation
+			default:
+				if lc.normUnk == "" {
+					lc.normUnk = "call of " + o.Name()
+				}
+			}
+		}
+	}
+}
+
+func isVectorPkgObj(o *types.Func) bool {
+	if o == nil || o.Pkg() == nil {
+		return false
+	}
+	return strings.HasPrefix(o.Pkg().Path(), "github.com/EliCDavis/vector")
 }
